@@ -13,11 +13,23 @@ Each harness entry:
 MODULES = {
     "vk_common": "lib.rs",
     "vk_sd_crc": "sdcard/mod.rs",
+    "vk_codec": "lib.rs",
+    "vk_vm": "volume_mgr.rs",
+    "vk_bd": "blockdevice.rs",
+    "vk_lfn": "filesystem/filename.rs",
+    "vk_handles": "filesystem/handles.rs",
+    "vk_fs": "filesystem/mod.rs",
 }
 # harness module -> rust path of the module
 MODPATH = {
     "vk_common": "vk_common",
     "vk_sd_crc": "sdcard::vk_sd_crc",
+    "vk_codec": "vk_codec",
+    "vk_vm": "volume_mgr::vk_vm",
+    "vk_bd": "blockdevice::vk_bd",
+    "vk_lfn": "filesystem::filename::vk_lfn",
+    "vk_handles": "filesystem::handles::vk_handles",
+    "vk_fs": "filesystem::vk_fs",
 }
 
 
@@ -74,3 +86,107 @@ H("C19", "vk_sd_crc", "c19_crc16_double_bit_512", tier="thorough", desc="every d
 H("C19", "vk_sd_crc", "c19_crc7_step_lemma", desc="crc7(m++[b]) == frame(bitserial_step7(state(m), b)); end bit set", bounds="full width")
 H("C19", "vk_sd_crc", "c19_crc7_prefix_onto", desc="1-byte prefix map injective on 0..128 (onto all 128 remainders)", bounds="full width")
 H("C19", "vk_sd_crc", "c19_crc7_direct_6", desc="all messages len 0..=6 equal bit-serial reference (command frames are 5 bytes)", bounds="len<=6")
+
+H("C19", "vk_sd_crc", "c19_crc_len_structure_40", desc="crc16/crc7 are folds over every byte: all lengths 0..=40, sparse symbolic content, vs reference", bounds="len<=40, 2 symbolic bytes at symbolic positions", timeout=1200, cost=2)
+H("C19", "vk_sd_crc", "c19_crc_len_structure_130", tier="thorough", desc="same, all lengths 0..=130", bounds="len<=130", timeout=3600, cost=4)
+H("C19", "vk_sd_crc", "c19_crc_len_structure_520", tier="thorough", desc="same, all lengths 0..=520", bounds="len<=520", timeout=7200, cost=6, mem_gb=20)
+H("C19", "vk_sd_crc", "c19_crc7_direct_17", tier="thorough", desc="all messages len 0..=17 equal reference (15/16-byte register images)", bounds="len<=17", timeout=3600, cost=3)
+H("C19", "vk_sd_crc", "c19_crc16_direct_17", tier="thorough", desc="all messages len 0..=17 equal reference", bounds="len<=17", timeout=3600, cost=3)
+
+# ---------------------------------------------------------------------------
+# C18 codecs
+# ---------------------------------------------------------------------------
+PROPS["C18"] = dict(
+    bounds="timestamps: all 2^32 (date,time) pairs and all calendar field values (full width); directory entries: all "
+           "names/attribute bytes/sizes, clusters < 2^16 (FAT16) / < 2^28 (FAT32), all in-range timestamps, both FAT types; "
+           "raw 32-byte slots: all 2^256 contents; 8.3 parser: all strings of 0..=13 characters over U+0000..U+07FF "
+           "(every class the parser distinguishes) against a declarative 8.3 grammar; Display->parse: all names of the "
+           "shapes 8.3, 3.1 and 5 over all permitted bytes",
+    outside="characters above U+07FF (3/4-byte UTF-8; the parser treats everything above U+00FF alike); strings longer than "
+            "13 characters (always rejected by length); Display round trip only for three base/extension length shapes",
+    assumptions=["8.3 validity oracle = declarative grammar in the harness (ref_parse); FAT slot layout = literal offsets from the FAT specification"],
+)
+H("C18", "vk_codec", "c18_ts_decode_encode_all_pairs", desc="from_fat total; fields = spec bit fields; decode-then-encode identity for all (date,time) with month,day>=1", bounds="all 2^32 pairs")
+H("C18", "vk_codec", "c18_ts_calendar_roundtrip", desc="from_calendar accepts exactly valid fields; encoded words = spec layout; encode-then-decode up to 2 s", bounds="all field values")
+H("C18", "vk_codec", "c18_direntry_roundtrip_fat16", desc="serialize -> spec offsets -> get_entry returns same fields", bounds="all entries, cluster<2^16")
+H("C18", "vk_codec", "c18_direntry_roundtrip_fat32", desc="serialize -> spec offsets -> get_entry returns same fields", bounds="all entries, cluster<2^28")
+H("C18", "vk_codec", "c18_slot_decode_encode_fat16", desc="decode any 32-byte slot, re-encode: name/attr/times/cluster/size preserved", bounds="all 2^256 slots")
+H("C18", "vk_codec", "c18_slot_decode_encode_fat32", desc="decode any 32-byte slot, re-encode: name/attr/times/cluster/size preserved", bounds="all 2^256 slots")
+H("C18", "vk_codec", "c18_sfn_parse_5", desc="create_from_str == declarative 8.3 grammar (accept set and 11 bytes)", bounds="strings of 0..=5 chars <= U+07FF")
+H("C18", "vk_codec", "c18_sfn_parse_9", desc="create_from_str == declarative 8.3 grammar", bounds="strings of 0..=9 chars <= U+07FF", timeout=1800, cost=3)
+H("C18", "vk_codec", "c18_sfn_parse_13", tier="thorough", desc="create_from_str == declarative 8.3 grammar", bounds="strings of 0..=13 chars <= U+07FF", timeout=3600, cost=5)
+H("C18", "vk_codec", "c18_sfn_display_roundtrip_8_3", desc="Display then parse gives the same 11 bytes", bounds="all 8.3-shaped names", timeout=1800, cost=3)
+H("C18", "vk_codec", "c18_sfn_display_roundtrip_3_1", tier="thorough", desc="Display then parse gives the same 11 bytes", bounds="all 3.1-shaped names", timeout=1800)
+H("C18", "vk_codec", "c18_sfn_display_roundtrip_5_0", tier="thorough", desc="Display then parse gives the same 11 bytes", bounds="all 5-char names", timeout=1800)
+
+# ---------------------------------------------------------------------------
+# C15 mounting
+# ---------------------------------------------------------------------------
+PROPS["C15"] = dict(
+    bounds="totality: MBR, boot sector and FAT32 info sector are 3 x 512 fully symbolic bytes, partition slots 0..3 each "
+           "and any index >= 4; correctness: every MBR entry + boot sector satisfying the FAT specification's validity "
+           "predicate (512 B sectors, 1..128 sectors/cluster power of two, 1-2 FATs, >= 1 reserved, 16/32-bit totals and "
+           "FAT sizes, any root entry count, >= 4085 clusters, FAT large enough, FAT32: FSVer 0, root cluster in range, "
+           "valid info signatures) - all layout fields compared with the spec formulas evaluated in u64",
+    outside="GPT disks; 'files placed by an independent formatter are found' is the composition of the layout result with "
+            "C06/C01, not a separate run; device read errors during mount are C11's",
+    assumptions=["spec validity predicate and layout formulas written in the harness (valid_layout)"],
+)
+for p in range(4):
+    H("C15", "vk_vm", "c15_mount_total_p%d" % p, tier="quick" if p in (0, 3) else "thorough",
+      desc="open_raw_volume on arbitrary MBR/boot/info sectors: no panic/overflow/div0/OOB, no write, table consistent", bounds="3x512 symbolic bytes, slot %d" % p, timeout=900)
+    H("C15", "vk_vm", "c15_mount_correct_p%d" % p, tier="quick" if p in (0, 3) else "thorough",
+      desc="every spec-valid layout opens and FatVolume fields equal the spec formulas", bounds="all valid BPBs, slot %d" % p, timeout=1800, cost=3)
+H("C15", "vk_vm", "c15_mount_total_bad_index", desc="volume index >= 4 never yields a volume", bounds="all usize >= 4")
+
+# ---------------------------------------------------------------------------
+# C17 long file names
+# ---------------------------------------------------------------------------
+PROPS["C17"] = dict(
+    bounds="LfnBuffer::push: ONE push from an arbitrary buffer state (buffer length 0..=64 symbolic, any free position, any "
+           "carried surrogate, any overflow flag, arbitrary stored bytes) with all 13 code units symbolic (thorough) or units "
+           "0-3 and 12 symbolic (quick); 1-fragment names from a fresh buffer; 2 pushes into a <=16 byte buffer with direct "
+           "UTF-8 validation",
+    outside="multi-fragment names are covered by induction over pushes (each push prepends the UTF-8 of whole scalars and the "
+            "carried unit is the only coupling) - that composition is an argument, not a query; buffers longer than 64 bytes",
+    assumptions=["reference lossy UTF-16 decoder + UTF-8 encoder written in the harness (ref_push)"],
+)
+H("C17", "vk_lfn", "c17_lfn_push_edges", desc="one push, units 0-3,12 symbolic: no panic, written bytes = UTF-8(lossy(fragment++carry)), overflow/carry flags, old bytes untouched", bounds="buffer<=64, any state", timeout=1800, cost=4)
+H("C17", "vk_lfn", "c17_lfn_push_head", desc="one push, units 0-6 symbolic (NUL terminator positions)", bounds="buffer<=64, any state", timeout=1800, cost=4)
+H("C17", "vk_lfn", "c17_lfn_push_full", tier="thorough", desc="one push, all 13 units symbolic", bounds="buffer<=64, any state", timeout=7200, cost=8, mem_gb=24)
+H("C17", "vk_lfn", "c17_lfn_single_fragment_name", desc="fresh buffer + one fragment: as_str == lossy decoding of the name", bounds="units 0-2,12 symbolic", timeout=1800, cost=2)
+H("C17", "vk_lfn", "c17_lfn_two_pushes_utf8", desc="two pushes into a <=16 byte buffer: as_str is valid UTF-8 (direct validation)", bounds="5 symbolic units", timeout=1800, cost=2)
+
+# ---------------------------------------------------------------------------
+# C08 handles / limits / lock
+# ---------------------------------------------------------------------------
+PROPS["C08"] = dict(
+    bounds="one call from an arbitrary table state: limits MAX_VOLUMES=MAX_DIRS=MAX_FILES=2, table lengths 0..=2 symbolic, "
+           "all handle values and the generator state symbolic (32 bit), pairwise distinct and != next id; every entry "
+           "point that takes a handle; lock: every result-returning public method called from an iterate_dir callback",
+    outside="limits other than 2 (the table code is generic over the capacity; not re-instantiated); handle distinctness "
+            "needs 'fewer than 2^32 handles generated since the oldest open handle' (wrap-around reuse after 2^32 "
+            "generations is documented by the authors and outside the claim); histories are covered by the one-step "
+            "induction over the table invariant",
+    assumptions=["table invariant: handles pairwise distinct across kinds, none equal to the generator's next id"],
+)
+for n, d in [
+    ("c08_generator_step", "generate() returns next id and advances by exactly 1 mod 2^32"),
+    ("c08_open_root_dir", "fresh handle (also twice) / TooManyOpenDirs exactly at capacity / BadHandle for unknown volume / frame"),
+    ("c08_open_dir_dot", "open_dir(parent, '.') fresh handle, designates parent, limit, stale parent"),
+    ("c08_close_dir", "close frees exactly that slot; stale handle BadHandle; closed handle rejected afterwards"),
+    ("c08_close_file", "close_file frees exactly that slot; stale handle BadHandle; rejected afterwards"),
+    ("c08_stale_file_read", "read (any buffer length 0..=2) rejects a handle that is not open, no effect"),
+    ("c08_stale_file_write", "write rejects a handle that is not open, no effect"),
+    ("c08_stale_file_flush_close", "flush_file/close_file reject a handle that is not open, no effect"),
+    ("c08_stale_file_seek_query", "eof/seek x3/length/offset reject a handle that is not open"),
+    ("c08_stale_dir_open_close", "open_dir/close_dir reject a stale directory handle"),
+    ("c08_stale_dir_find_iterate", "find_directory_entry/iterate_dir/iterate_dir_lfn reject a stale directory handle"),
+    ("c08_stale_dir_open_file", "open_file_in_dir (all modes) rejects a stale directory handle"),
+    ("c08_stale_dir_delete_mkdir", "delete_file_in_dir/make_dir_in_dir reject a stale directory handle"),
+    ("c08_lookup_functions", "get_file/dir/volume_by_id: Ok(i) iff table[i] carries the handle, else BadHandle (symbolic tables)"),
+    ("c08_limits_full_tables", "TooManyOpenFiles/Dirs/Volumes at capacity before any device access"),
+    ("c08_close_volume_and_reopen", "close_volume refused while in use; frees slot; stale; second open of same index refused"),
+    ("c08_has_open_handles", "has_open_handles() == dirs non-empty || files non-empty"),
+]:
+    H("C08", "vk_vm", n, desc=d, bounds="tables<=2 each, handles symbolic", timeout=900)
